@@ -24,7 +24,19 @@ func main() {
 	replay := flag.String("replay", "", "replay file: re-evaluate the property of that obligation and show it")
 	overlay := flag.String("overlay", "", "self-test only: JSON {file: content} overlay")
 	only := flag.String("only", "", "dev: restrict to one rule id")
+	list := flag.Bool("list", false, "print the rule registry (markdown) and exit")
 	flag.Parse()
+	if *list {
+		for _, pid := range rules.Properties() {
+			txt := rules.PropertyText[pid]
+			fmt.Printf("### %s\n\n*Decides.* %s\n\n*Not decided.* %s\n\n", pid, txt[0], txt[1])
+			for _, r := range rules.For(pid) {
+				fmt.Printf("* **%s** (serves %s) — %s\n", r.ID, strings.Join(r.Props, ", "), r.Doc)
+			}
+			fmt.Println()
+		}
+		return
+	}
 
 	start := time.Now()
 	seed := 0
